@@ -32,7 +32,7 @@ def check(m, run):
     from . import c13
     from .. import layout
     summ, _contracts = layout.flip_summaries(m)
-    c13.transpose_rule(m, run, summ)
+    c13.transpose_checks(m, run, summ)
     from . import c10
     c10.pu2(m, run)      # without inplace, the transforms return an object that shares nothing with their argument: editing one never changes the other
     run.floor('IV1.no-stale-cache', 600, 'class x entry x cache triples on the pinned tree')
